@@ -1,0 +1,19 @@
+//go:build verif
+
+package dkv
+
+import "reduction.dev/reduction/dkv/sst"
+
+// Accessors for the verification harness (build tag verif only).
+
+// VerifCompactor exposes the compactor so that a harness can lower its thresholds to simulation scale.
+func (db *DB) VerifCompactor() *sst.Compactor { return db.compactor }
+
+// VerifLevels returns the current level list.
+func (db *DB) VerifLevels() *sst.LevelList { return db.currentSSTables() }
+
+// VerifSeqNum returns the latest sequence number written.
+func (db *DB) VerifSeqNum() uint64 { return db.seqNum }
+
+// VerifMemtableCount returns the number of memtables (sealed + active).
+func (db *DB) VerifMemtableCount() int { return len(db.mtables.Sealed()) + 1 }
